@@ -17,6 +17,7 @@ import (
 //	     arguments with enum / input-object / list defaults and is deprecated
 //	     with an EMPTY reason
 //	X1   a second extra implementer (of the last interface)
+//	XD, XDIn (60%) argument types of a custom directive @xdir that nothing else references
 //
 // All four are appended to m.Extra; the names are returned.
 func extend(r *core.RNG, m *model.Schema) []string {
@@ -107,6 +108,20 @@ func extend(r *core.RNG, m *model.Schema) []string {
 			Args: []*model.InputDef{{Name: "l", Type: model.ListOf(model.Named("String")), HasDefault: true, Default: []interface{}{"a b", "c"}}}})
 	}
 	m.Extra = append(m.Extra, names...)
+	// a custom directive whose argument types NOTHING else references: they
+	// belong to the schema only as "argument types of the directives"
+	if r.Chance(60) {
+		xd := &model.TypeDef{Kind: model.Enum, Name: "XD", Values: []*model.EnumVal{{Name: "XD_ON", Internal: 10}, {Name: "XD_OFF", Internal: 20}}}
+		xdin := &model.TypeDef{Kind: model.InputObject, Name: "XDIn", InputFields: []*model.InputDef{
+			{Name: "mode", Type: model.NonNull(model.Named("XD"))}, {Name: "w", Type: model.Named("Float"), HasDefault: true, Default: 1.5}}}
+		m.Types = append(m.Types, xd, xdin)
+		m.Directives = append(m.Directives, &model.DirectiveDef{Name: "xdir", Desc: "directive with private argument types",
+			Locations: []string{"FIELD", "MUTATION", "FRAGMENT_DEFINITION"},
+			Args: []*model.InputDef{
+				{Name: "mode", Type: model.Named("XD"), HasDefault: true, Default: 20},
+				{Name: "opts", Type: model.ListOf(model.NonNull(model.Named("XDIn"))), HasDefault: true, Default: []interface{}{map[string]interface{}{"mode": 10, "w": 1.5}}},
+			}})
+	}
 	m.Reindex()
 	return names
 }
